@@ -122,10 +122,10 @@ def sock_scripts(work, maxq):
         for (lab, arg, v) in steps:
             a = arg if isinstance(arg, tuple) else ((arg,) if arg is not None else ())
             if lab == "Connect":
-                out.append(["connect", a[0]])
+                out.append(["connect", a[0], a[1]])
                 model.append(0 if cur["cs"][a[0] - 1] == "new" else -106)
             elif lab == "Accept":
-                out.append(["accept"])
+                out.append(["accept", a[0]])
                 model.append("fd")
             elif lab == "Send":
                 out.append(["send", a[0], a[1]])
@@ -298,7 +298,7 @@ def run(tier):
         f_singles = pool.submit(generate, chk.work, "singles", 1, 0, 0, chk.seed)
         f_walks = {size: pool.submit(generate, chk.work, "walk", size, nb, 2 if quick else 4, chk.seed + size) for size, nb in sizes}
         f_pairs = pool.submit(generate, chk.work, "pairs", 2, 0, 0, chk.seed) if not quick else None
-        f_sock = pool.submit(sock_scripts, chk.work, 6 if quick else 8)
+        f_sock = pool.submit(sock_scripts, chk.work, 5 if quick else 8)
         mres = f_models.result()
         gres, _, singles = f_singles.result()
         chk.add_tlc(gres)
